@@ -39,7 +39,8 @@ class C12(StdCheck):
     prop = "C12"
     required_theorems = ["replay_exact_partial", "replay_exact_counterexample", "replay_exact", "confirmed_not_replayed",
                          "receiver_ignores_old", "position_monotone", "cleanup_safe", "truncation_tolerant",
-                         "survives_restart", "relay_persists"]
+                         "damage_tolerant", "survives_restart", "relay_persists", "rel_init", "step_meets_spec",
+                         "model_trace_meets_spec"]
     technique = ("Lean 4 proof about an executable transcription of PersistMessage/RotateLogFile/ReplayLog/the clean-up timer and "
                  "the receiver's filter (fold invariants over the records, the pass structure of ReplayLog, C20's netstring "
                  "prefix theorem for damaged files); correspondence by differential execution of a real in-process ApiListener "
@@ -49,7 +50,10 @@ class C12(StdCheck):
                   "directory content it never sends a confirmed or invisible record and only a subsequence of what is on disk; the "
                   "receiver drops exactly the messages older than its position; positions are monotone; the clean-up never "
                   "deletes a file a related endpoint inside its log_duration still needs; a file cut at any byte offset yields "
-                  "exactly the records wholly inside the cut; a restart without byte loss changes nothing. The model is tied to "
+                  "exactly the records wholly inside the cut, and with ANY bytes behind the intact part those records still come first; a "
+                  "restart without byte loss changes nothing; and the whole-trace theorem: for every operation sequence (events, "
+                  "connects, replays, rotations, clean-ups, acknowledgements, incoming messages, crash-restarts) under a strictly "
+                  "advancing clock the model node's observed trace satisfies the executable specification. The model is tied to "
                   "the code by running the real ApiListener (RelayMessage, ReplayLog, RotateLogFile, the timer through the pump, "
                   "MessageHandler) on seeded operation sequences with restarts as new processes, byte-exact file comparison, and "
                   "every cut offset of multi-file logs; the specification predicate is evaluated on the implementation's trace")
